@@ -24,7 +24,7 @@ def gen(rng):
                                "dev": ds["X_dev"] is not None, "classes": sorted(map(str, set(ds["y"].tolist())))}}
 
 
-def check_case(rng, r, stats):
+def check_case(rng, r, stats, drv=None):
     from AutoCarver import BinaryCarver, MulticlassCarver
     from AutoCarver.discretizers import GroupedList
     fails = []
@@ -54,6 +54,7 @@ def check_case(rng, r, stats):
         mc = None
     classes = sorted(set(map(str, y.tolist())))
     raw_feats = ds["quantitative"] + ds["qualitative"] + ds["ordinal"]
+    binaries = {}
     for c in classes[1:]:
         t = (y.astype(str) == c).astype(int)
         td = None if ds["y_dev"] is None else (ds["y_dev"].astype(str) == c).astype(int)
@@ -77,6 +78,7 @@ def check_case(rng, r, stats):
         if berr is not None:
             fail("a one-vs-rest BinaryCarver raised although MulticlassCarver fitted", error=berr, cls=c)
             continue
+        binaries[c] = (bc, Xc)
         for f in raw_feats:
             name = f"{f}_{c}"
             kept_b = f in bc.features
@@ -92,6 +94,8 @@ def check_case(rng, r, stats):
                     fail("column f_c differs from the BinaryCarver's output for f", feature=f, cls=c, rows=bad,
                          multiclass=[a[i] for i in bad], binary=[b[i] for i in bad],
                          min_freq_mod_non_default=cfg["min_freq_mod"] is not None)
+    if mc is not None and drv is not None and len(binaries) == len(classes) - 1:
+        fails += check_model(drv, r, mc, Xm, binaries, classes, raw_feats, stats)
     if mc is not None:
         first = [n for n in mc.features if n.endswith("_" + classes[0]) and n[:-len(classes[0]) - 1] in raw_feats]
         if first and not any(first_ for first_ in first if any(first_ == f"{f}_{c}" for f in raw_feats for c in classes[1:])):
@@ -104,25 +108,86 @@ def check_case(rng, r, stats):
     return fails
 
 
+def check_model(drv, r, mc, Xm, binaries, classes, raw_feats, stats):
+    """the Lean model of the assembled multiclass state (Multi.assemble, the object of C12.multiclass_column_eq_ovr) against the
+    real MulticlassCarver: built from the states of the *independent* BinaryCarvers, it must have the features, types, orders
+    and features_casting of the real object, and its transform (model of BaseDiscretizer.transform) the real output columns"""
+    fails = []
+    ds, cfg = r["ds"], r["meta"]["cfg"]
+    X, y = ds["X"], ds["y"]
+    res = []
+    for c in classes[1:]:
+        bc = binaries[c][0]
+        res.append([c, {"features": list(bc.features), "orders": [[f, fitgen.gl_wire(gl)] for f, gl in bc.values_orders.items()],
+                        "is_quant": [[f, d == "float"] for f, d in bc.input_dtypes.items()]}])
+    req = {"op": "multi.assemble", "shared": {"out_float": mc.output_dtype == "float", "str_nan": mc.str_nan, "str_default": mc.str_default,
+                                               "dropna": bool(mc.dropna)},
+           "raw": list(raw_feats), "classes": classes[1:], "res": res, "frame": fitgen.frame_wire(X, columns=raw_feats),
+           "y": [str(v) for v in y.tolist()]}
+    m = drv.call(req)
+    stats["model_states"] = stats.get("model_states", 0) + 1
+    stats["theorem_hypotheses_hold"] = stats.get("theorem_hypotheses_hold", 0) + int(bool(m["hypotheses"]))
+
+    def cfail(what, **kw):
+        fails.append({"kind": "correspondence", "what": "model of the assembled multiclass state: " + what, **kw})
+    if m["carved_classes"] != classes[1:]:
+        cfail("carved classes differ", model=m["carved_classes"], impl=classes[1:])
+    st = m["state"]
+    if sorted(st["features"]) != sorted(mc.features):
+        cfail("features differ", model=sorted(st["features"]), impl=sorted(mc.features))
+    if sorted(st["quant"]) != sorted(mc.quantitative_features) or sorted(st["qual"]) != sorted(mc.qualitative_features):
+        cfail("feature types differ", model=[sorted(st["quant"]), sorted(st["qual"])], impl=[sorted(mc.quantitative_features), sorted(mc.qualitative_features)])
+    if {k: v for k, v in st["casting"]} != {k: list(v) for k, v in mc.features_casting.items()}:
+        cfail("features_casting differs", model=st["casting"], impl={k: list(v) for k, v in mc.features_casting.items()})
+    mo = {k: v for k, v in st["orders"]}
+    io = {k: fitgen.gl_wire(v) for k, v in mc.values_orders.items()}
+    if mo != io:
+        cfail("values_orders differ", features=[k for k in set(mo) | set(io) if mo.get(k) != io.get(k)][:4])
+    if {k: v for k, v in st["feat_dropna"]} != {k: bool(v) for k, v in mc.features_dropna.items()}:
+        cfail("features_dropna differs")
+    tr = m["transform"]
+    if "ok" not in tr:
+        cfail("the model's transform of the training frame fails", model=tr)
+    else:
+        cols = {k: v for k, v in tr["ok"]}
+        for name in mc.features:
+            a = [fitgen.cell(v) for v in Xm[name].tolist()]
+            if cols.get(name) != a:
+                cfail("transform output differs", column=name)
+                break
+        # the conclusion of the theorem, on the model's two sides
+        for c, o in m["ovr"]:
+            if "ok" in o:
+                oc = {k: v for k, v in o["ok"]}
+                for f in binaries[c][0].features:
+                    if cols.get(f"{f}_{c}") != oc.get(f):
+                        cfail("model: column f_c of the assembled state differs from column f of the one-vs-rest state", feature=f, cls=c)
+    return fails
+
+
 def worker(args):
     n, seed = args
     core.import_repo()
     rng = random.Random(seed)
     fails, sample, sigs = [], None, set()
     stats = {"cases": 0, "binary_fits": 0, "multiclass_errors": {}}
-    for _ in range(max(1, n // 3)):
-        r = gen(rng)
-        if not r["ds"]["ok_target"]:
-            continue
-        stats["cases"] += 1
-        fs = check_case(rng, r, stats)
-        for f in fs:
-            f["case"] = c01.describe(r)
-        fails += fs
-        sigs.add(json.dumps(c01.describe(r)["X"])[:3000])
-        if sample is None:
-            sample = {"meta": r["meta"]}
-    return fails[:6], len(fails), stats, sample, len(sigs)
+    drv = core.Driver()
+    try:
+        for _ in range(max(1, n // 3)):
+            r = gen(rng)
+            if not r["ds"]["ok_target"]:
+                continue
+            stats["cases"] += 1
+            fs = check_case(rng, r, stats, drv)
+            for f in fs:
+                f["case"] = c01.describe(r)
+            fails += fs
+            sigs.add(json.dumps(c01.describe(r)["X"])[:3000])
+            if sample is None:
+                sample = {"meta": r["meta"]}
+        return fails[:6], len(fails), stats, sample, len(sigs)
+    finally:
+        drv.close()
 
 
 def main(tier, seed):
